@@ -434,16 +434,27 @@ def shrink_candidates(case):
             if op[0] == 'unlink' and op[1] > i:
                 op[1] -= 1
         yield d
-    # drop an unused dataset (only the last one, to keep indices)
+    # drop an unused dataset (re-indexing the others)
     n = len(c['datasets'])
-    if n > 1:
-        k = n - 1
+    for k in range(n - 1, -1, -1):
+        if n <= 1:
+            break
         used = any(k in (op[1], op[2]) for op in c['ops'] if op[0] != 'unlink')
         used = used or any(q['d'] == k or (q['sel'][0] == 'ineq' and q['sel'][1] == k) or
                            (q['sel'][0] == 'table' and str(k) in q['sel'][1]) for q in c['queries'])
         if not used:
             d = copy.deepcopy(c)
             del d['datasets'][k]
+            ren = lambda x: x - 1 if x > k else x      # noqa
+            for op in d['ops']:
+                if op[0] != 'unlink':
+                    op[1], op[2] = ren(op[1]), ren(op[2])
+            for q in d['queries']:
+                q['d'] = ren(q['d'])
+                if q['sel'][0] == 'ineq':
+                    q['sel'][1] = ren(q['sel'][1])
+                else:
+                    q['sel'][1] = {str(ren(int(e))): v for e, v in q['sel'][1].items()}
             yield d
     # view -> None
     for i, q in enumerate(c['queries']):
@@ -463,13 +474,27 @@ def shrink_candidates(case):
                 d = copy.deepcopy(c)
                 del d['queries'][i]['sel'][1][k]
                 yield d
-    # flatten shapes, then drop rows (only when all views are None and selections are tables)
+    # views -> explicit flat indices (flattening the dataset), then shorter index lists
     for k, ds in enumerate(c['datasets']):
-        if len(ds['shape']) > 1 and all(q['view'] is None for q in c['queries']):
+        multi = len(ds['shape']) > 1
+        other = any(q['d'] == k and q['view'] is not None and (multi or q['view'][0] != 'idx') for q in c['queries'])
+        if multi or other:
             d = copy.deepcopy(c)
+            for q in d['queries']:
+                if q['d'] == k and q['view'] is not None:
+                    q['view'] = ['idx', view_indices(q['view'], tuple(ds['shape']))]
             d['datasets'][k]['shape'] = [int(np.prod(ds['shape']))]
             yield d
-    if all(q['view'] is None and q['sel'][0] == 'table' for q in c['queries']):
+    for i, q in enumerate(c['queries']):
+        if q['view'] is not None and q['view'][0] == 'idx' and len(c['datasets'][q['d']]['shape']) == 1:
+            for j in range(len(q['view'][1])):
+                d = copy.deepcopy(c)
+                del d['queries'][i]['view'][1][j]
+                yield d
+    # drop rows (when every view is None or a flat index list and the selections are tables)
+    flat_ok = all(q['sel'][0] == 'table' and (q['view'] is None or (q['view'][0] == 'idx' and len(c['datasets'][q['d']]['shape']) == 1))
+                  for q in c['queries'])
+    if flat_ok:
         for k, ds in enumerate(c['datasets']):
             if len(ds['shape']) == 1 and ds['shape'][0] > 1:
                 for r in range(ds['shape'][0] - 1, -1, -1):
@@ -482,6 +507,8 @@ def shrink_candidates(case):
                     for q in d['queries']:
                         if str(k) in q['sel'][1]:
                             del q['sel'][1][str(k)][r]
+                        if q['d'] == k and q['view'] is not None:
+                            q['view'] = ['idx', [x - (1 if x > r else 0) for x in q['view'][1] if x != r]]
                     yield d
     # fewer key columns in a multi-column join
     for i, op in enumerate(c['ops']):
@@ -620,14 +647,6 @@ def stream_pairs(R):
                     for tl2 in fam2:
                         for tr2 in fam2:
                             nn.append((tl1, tr1, tl2, tr2))
-    if R.quick():
-        # quick tier: every dtype pair on the first column, against a rotating choice on the second
-        keep = []
-        for i, x in enumerate(nn):
-            if (i % 4) == 0 or x[2][0] != x[3][0] and (i % 2) == 0:
-                keep.append(x)
-        R.note('pairs stream: %d of %d two-column dtype combinations in the quick tier' % (len(keep), len(nn)))
-        nn = keep
     for tl1, tr1, tl2, tr2 in nn:
         cases.append(pair_case([tl1, tl2], [tr1, tr2], [0, 1], [0, 1]))
     nq = 0
@@ -636,7 +655,7 @@ def stream_pairs(R):
         nq += run_cases(R, cases[i:i + step], 'pairs')
     R.sample({'stream': 'pairs', 'case': {'left dtypes': ['i4', 'U2'], 'right dtypes': ['i8', 'U3'], 'join': 'n-n on (c0,c1)',
                                           'tables': 'every tuple over %r x %r' % (NUM_A, STR_A), 'selections': 'each single right row, each single left row, none, all'}})
-    R.stream('pairs', systems=len(cases), queries=nq, exhaustive=not R.quick(),
+    R.stream('pairs', systems=len(cases), queries=nq, exhaustive=True,
              bound='two datasets holding every key tuple over the alphabets ints %r / floats %r / strings %r, dtypes i2 i4 i8 f8 / U1 U2 U3 '
                    'in every combination per compared column pair, shapes 1-1, 1-n, n-1 (2 columns), n-n (2 columns), every one-row selection in both directions' % (NUM_A, FLT_A, STR_A))
 
@@ -811,7 +830,7 @@ def rand_case(rng, force=None):
 
 
 def stream_random(R):
-    ncases = R.pick(1500, 14000)
+    ncases = R.pick(2500, 14000)
     cases = []
     for i in range(ncases):
         rng = R.subrng('random', i)
